@@ -37,6 +37,7 @@ pub const SPEC: PropSpec = PropSpec {
 pub struct Local {
     at: std::collections::BTreeMap<&'static str, u64>,
     interrupts: u64,
+    uncleared_buffer_runs: u64,
     errors: u64,
     async_runs: u64,
     multi: u64,
@@ -58,6 +59,12 @@ struct Run {
 }
 
 fn run_sync(input: &[u8], cfg: u8, cuts: &[usize], faults: &[(u64, Fault)], record: bool) -> Run {
+    run_sync_buf(input, cfg, cuts, faults, record, true)
+}
+
+/// `clear` = the caller empties its event buffer before every call (what everybody does); without it the
+/// events are appended to what the buffer already holds, which the API allows
+fn run_sync_buf(input: &[u8], cfg: u8, cuts: &[usize], faults: &[(u64, Fault)], record: bool, clear: bool) -> Run {
     let mut src = ChunkedRead::new(input, cuts.to_vec());
     src.faults = faults.to_vec();
     src.record = record;
@@ -71,7 +78,9 @@ fn run_sync(input: &[u8], cfg: u8, cuts: &[usize], faults: &[(u64, Fault)], reco
     for _ in 0..limit {
         let c0 = r.get_ref().calls;
         let before = r.buffer_position();
-        buf.clear();
+        if clear || buf.len() > 4096 {
+            buf.clear();
+        }
         let res = r.read_event_into(&mut buf);
         let obs = result_obs(&res);
         drop(res);
@@ -339,6 +348,20 @@ fn enumerate(ctx: &mut Ctx, loc: &mut Local, input: &[u8], cfg: u8, cuts: &[usiz
                         run_async(input, cfg, cuts, p, &faults)?
                     }
                 };
+                // the same faulted run with a caller that does not empty its event buffer between calls: events,
+                // errors and positions must not depend on what the buffer already holds
+                if pending.is_none() && (k + input.len() as u64) % 3 == 0 {
+                    let kept = run_sync_buf(input, cfg, cuts, &faults, false, false);
+                    loc.uncleared_buffer_runs += 1;
+                    if kept.trace != got.trace {
+                        return Err(format!(
+                            "fault {:?} at refill call {}: with an event buffer that is not cleared between calls: {}",
+                            fault,
+                            k,
+                            describe_diff("cleared buffer", &got.trace, "uncleared buffer", &kept.trace)
+                        ));
+                    }
+                }
                 match fault {
                     Fault::Interrupted => {
                         if got.faults_delivered != 1 {
@@ -513,6 +536,7 @@ fn flush(ctx: &mut Ctx, loc: &Local) {
     ctx.add("async_runs", loc.async_runs);
     ctx.add("multi_interrupt_runs", loc.multi);
     ctx.add("fault_points", loc.fault_points);
+    ctx.add("faulted_runs_repeated_with_an_uncleared_event_buffer", loc.uncleared_buffer_runs);
     ctx.add("reader_usable_after_error", loc.reader_usable_after_error);
     ctx.add("reader_done_after_error", loc.reader_done_after_error);
 }
